@@ -252,12 +252,14 @@ def run(tier, work, exe, verdict):
     if nfail:
         i = nfail[0]
         raise vlib.Broken("generated program does not compile / run (shape %s): %s" % (json.dumps(allshapes[i]), json.dumps([e for e in (exs[i]["events"] if i < len(exs) else []) if e.get("e") in ("Reported", "CallErr", "Log")][:4])[:1500]))
-    if nbinary < len(ims_all):
+    if nbinary < len(ims_all):       # (on average two loads per program should use the binary; the driver may decline now and then)
         raise vlib.Broken("vacuity guard: only %d loads used a binary for %d programs" % (nbinary, len(ims_all)))
     accepted, nevents, rejects = vlib.validate_executions(SPEC, "BinEquiv", "BinEquiv.cfg", projs, work, tag="eqp3")
     for badi, upto in rejects:
         ims = ims_all[badi]
         what, where = explain(ims[0], ims[upto - 1]) if 0 < upto <= len(ims) else ("?", "?")
+        if what == "?":
+            where = "images: " + json.dumps(projs[badi])[:600]
         sh = allshapes[badi]
         sig = {"kind": "differs", "what": what.replace("_text", ""), "feats": sorted(sh["feats"])[:3]}
         verdict.add(sig, [json.dumps(sh), where], "binary-loaded program differs from the compiled one in its %s: %s" % (what.replace("_text", ""), where))
